@@ -713,7 +713,7 @@ def gen_world(rng, kind: str, policy: str | None = None, widened: bool = False) 
             req.append([ty, 0 if rng.random() < 0.04 else rng.randint(1, 2 if rng.random() < 0.85 else 4)])
         return req
 
-    max_tasks = rng.randint(1, 7 if not widened else 9)
+    max_tasks = rng.randint(2, 8) if kind == "prio" else rng.randint(1, 7 if not widened else 9)
     n_graphs = rng.randint(1, 4)
     names = rng.sample(GRAPH_NAMES, n_graphs)
     # few distinct values => many ties
@@ -725,7 +725,7 @@ def gen_world(rng, kind: str, policy: str | None = None, widened: bool = False) 
             break
         k = rng.randint(1, min(4, max_tasks - total))
         total += k
-        shape_g = rng.choice(["indep", "indep", "indep", "chain", "fork"])
+        shape_g = rng.choice(["indep"] * (8 if kind == "prio" else 3) + ["chain", "fork"])
         edges = []
         if shape_g == "chain":
             edges = [[i, i + 1] for i in range(k - 1)]
@@ -895,8 +895,8 @@ KIND = {"C10": "mix", "C12": "deadline", "C13": "prio"}
 
 
 def counts_for(prop: str, tier: str) -> int:
-    quick = {"C10": 900, "C12": 600, "C13": 1500}
-    thorough = {"C10": 12000, "C12": 8000, "C13": 20000}
+    quick = {"C10": 3000, "C12": 2000, "C13": 6000}
+    thorough = {"C10": 60000, "C12": 40000, "C13": 150000}
     return (quick if tier == "quick" else thorough)[prop]
 
 
@@ -931,10 +931,21 @@ def signature(prop: str, what: str) -> str:
     return f"greedy {prop}: {what}"
 
 
+CHUNK = 1500
+
+
 def run(prop: str, chk, rng, tier: str) -> list[str]:
     prop = prop.upper()
     t0 = _time.time()
     specs = gen_specs(prop, rng, tier)
+    disagreements = []
+    for base in range(0, len(specs), CHUNK):  # bounded memory: real worlds are dropped chunk by chunk
+        disagreements += _run_chunk(prop, chk, specs[base : base + CHUNK], base)
+    chk.extra.setdefault("planner_wall_s", {})[f"greedy/{prop}"] = round(_time.time() - t0, 1)
+    return disagreements
+
+
+def _run_chunk(prop: str, chk, specs: list[dict], base: int) -> list[str]:
     worlds, cases = [], []
     for spec in specs:
         w, rec, case = run_case(spec)
@@ -942,7 +953,8 @@ def run(prop: str, chk, rng, tier: str) -> list[str]:
         cases.append(case if case is not None else {"suite": SUITE})
     replies = common.run_driver(cases) if cases else []
     disagreements = []
-    for wi, ((spec, w, rec), reply) in enumerate(zip(worlds, replies)):
+    for k, ((spec, w, rec), reply) in enumerate(zip(worlds, replies)):
+        wi = base + k
         pol = spec["policy"]
         n_off = len(rec["offered"] or [])
         pls = rec["placements"] or []
@@ -967,6 +979,8 @@ def run(prop: str, chk, rng, tier: str) -> list[str]:
             chk.count("greedy:multi-worker-pool")
         if spec["enforce"]:
             chk.count("greedy:enforce_deadlines")
+        if any(p.placement_type != _repo()["Placement"].PlacementType.PLACE_TASK for p in pls):
+            chk.count("greedy:with-cancellation")
         if rec["err"]:
             chk.count("greedy:raised")
         if rec["n_offer_calls"] != 1:
@@ -978,7 +992,6 @@ def run(prop: str, chk, rng, tier: str) -> list[str]:
             chk.count("greedy:virtual==reported-accounting" if reply["accounted"] else "greedy:virtual!=reported-accounting")
         for b in oracle_for(prop, w, rec):
             chk.violation(signature(prop, b), {"planner": NAME, "prop": prop, "spec": spec, "what": b})
-    chk.extra.setdefault("planner_wall_s", {})[f"greedy/{prop}"] = round(_time.time() - t0, 1)
     return disagreements
 
 
